@@ -642,6 +642,33 @@ func runPSI(line []byte, rec *recorder) {
 			if k == "eit" {
 				if m := bigLoopEIT(r); len(twinSection(m)) <= 4096 {
 					tvec("eit-large-loop", 0, []*tableModel{m}, r.pick(0, 3))
+					// the same section behind a long pointer filler: it ends past byte 4096 of its unit, which is nobody's limit
+					tvec("eit-large-loop-behind-pointer", r.pick(120, 200, 255), []*tableModel{m}, 0)
+					// ... and grown to the 4096 bytes a section may have (section_length 4093)
+					for guard := 0; guard < 40 && len(twinSection(m)) < 4096; guard++ {
+						need := 4096 - len(twinSection(m))
+						if need < 2 {
+							break
+						}
+						body := need - 2
+						if body > 255 {
+							body = 255
+							if need-2-255 == 1 {
+								body = 254
+							}
+						}
+						ev := m.EIT.Events[len(m.EIT.Events)-1]
+						if int(astits.VerifCalcDescriptorsLength(ev.Descriptors))+2+body > 4000 {
+							break
+						}
+						d := &astits.Descriptor{Tag: uint8(0x80 + r.intn(0x7f)), UserDefined: r.bytes(body)}
+						d.Length = uint8(body)
+						ev.Descriptors = append(ev.Descriptors, d)
+					}
+					if len(twinSection(m)) == 4096 {
+						tvec("eit-4096-bytes", 0, []*tableModel{m}, 0)
+						tvec("eit-4096-bytes", 7, []*tableModel{m}, 2)
+					}
 				}
 			}
 		}
